@@ -678,13 +678,7 @@ func (s *String) ReadOptionalASN1OctetString(out *[]byte, outPresent *bool, tag 
 // if the next bytes are not an ASN.1 BOOLEAN, to the value of defaultValue.
 // It reports whether the operation was successful.
 func (s *String) ReadOptionalASN1Boolean(out *bool, defaultValue bool) bool {
-	var present bool
-	var child String
-	if !s.ReadOptionalASN1(&child, &present, asn1.BOOLEAN) {
-		return false
-	}
-
-	if !present {
+	if !s.PeekASN1Tag(asn1.BOOLEAN) {
 		*out = defaultValue
 		return true
 	}
